@@ -102,6 +102,9 @@ def allowlist : List (Nat × Cls) := [
   (key! "SimTK::AssemblyCondition::calcGoal(SimTK::State const&, double&) const::err", scratchOverwritten),
   -- Random.cpp: seed handed to Random objects the user did not seed (documented: un-seeded generators differ)
   (key! "SimTK::Random::RandomImpl::nextSeed", seedCounter),
+  -- Random.cpp, verification hook (exists only in -DSIMBODY_VERIF builds): statically initialised to null and never
+  -- written by the library; only a test harness that wants to inject a raw word sets it
+  (key! "SimTK_verif_forceRaw", constAfterInit),
   -- contact identities: monotone counters; ids are only compared for equality / used as map keys, relative order of the
   -- ids created by one simulation does not depend on the start value
   (key! "SimTK::ContactImpl::createNewContactId()::nextAvailableId", idCounter),
